@@ -112,7 +112,7 @@ def draw(rng, i):
 def run_shard(spec, rng, ctx):
     end = C.budget(spec)
     i = 0
-    while i < spec["max_cases"] and time.time() < end:
+    while i < spec["max_cases"] and C.now() < end:
         judge(draw(rng, i), ctx)
         i += 1
 
